@@ -52,13 +52,13 @@ ASSUMPTIONS = [
 ]
 FLOORS = {
     "quick": {"setting.enumerated": 120, "roundtrip.compare": 6000, "style.keys": 6000, "reject.assign": 2500, "reject.read": 700,
-              "rename": 30, "copy.equal": 300, "copy.independent": 300, "default.explicit": 120, "subset.case": 120,
+              "rename": 30, "rename.into-settings-holding-another-value": 24, "copy.equal": 300, "copy.independent": 300, "default.explicit": 120, "subset.case": 120,
               "structured.value": 55, "flaglist.roundtrip": 30,
               "copy.modified-instance": 250, "copy.modified-instance-subclass": 6, "second.generation": 800, "all.changed": 600,
               "plugin.option": 20, "plugin.default": 25, "hook:Setting.addOptions": 2000, "hook:Setting.changeDefault": 4000,
               "hook:SettingsWriter.writeYaml": 6000, "hook:SettingsReader._applySettings": 20000, "hook:Setting.setValue": 20000},
     "thorough": {"setting.enumerated": 120, "roundtrip.compare": 40000, "style.keys": 40000, "reject.assign": 10000, "reject.read": 5000,
-                 "rename": 100, "copy.equal": 4000, "copy.independent": 4000, "default.explicit": 120, "subset.case": 3600,
+                 "rename": 100, "rename.into-settings-holding-another-value": 80, "copy.equal": 4000, "copy.independent": 4000, "default.explicit": 120, "subset.case": 3600,
                  "structured.value": 2000, "flaglist.roundtrip": 500,
                  "copy.modified-instance": 800, "copy.modified-instance-subclass": 6, "second.generation": 8000, "all.changed": 600,
                  "plugin.option": 20, "plugin.default": 25, "hook:Setting.addOptions": 10000, "hook:Setting.changeDefault": 20000,
@@ -1451,6 +1451,30 @@ def do_renames(ctx, rec, rng, spec, only=""):
             others = [n for n in ctx.names if n not in (new, "versions") and canon(held(tgt, n)) != canon(ctx.D[n].default)]
             if others:
                 rec.violation("rename/landed-elsewhere", "old name %r changed other settings: %s" % (old, others), wit)
+            # the same file read into a settings object that already holds another (non-default) value for that setting - a case that
+            # was modified, or loaded from another file before: what the file says wins, exactly as it does under the current name
+            for lab2, v2 in vals:
+                tgt2 = settings.Settings()
+                try:
+                    tgt2[new] = copy.deepcopy(v2)
+                except Exception:
+                    continue
+                h2 = canon(held(tgt2, new))
+                if h2 == h or _eq_default(held(tgt2, new), s.default):
+                    continue
+                rec.hit("rename.into-settings-holding-another-value")
+                try:
+                    quiet_load(tgt2, text2)
+                    ref2 = settings.Settings()
+                    ref2[new] = copy.deepcopy(v2)
+                    quiet_load(ref2, text)  # the same file under the current name: the reference behaviour
+                except Exception as e:
+                    rec.violation("rename/read-raises/%s" % type(e).__name__, "old-name file read into a settings object holding %s raised %s" % (show(v2), type(e).__name__), wit)
+                    break
+                if canon(held(tgt2, new)) != canon(held(ref2, new)):
+                    rec.violation("rename/old-name-entry-does-not-override-held-value", "settings held %s=%s; the file says %s: %s: afterwards %s (the same file with the current name gives %s)"
+                                  % (new, show(v2), old, show(held(src, new)), show(held(tgt2, new)), show(held(ref2, new))), dict(wit, held=show(v2)))
+                break
             rec.case(["rename", old, new, h], sample=wit if done == 1 else None)
 
 
